@@ -286,32 +286,50 @@ bloom_filter_alloc<A> bloom_filter_alloc<A>::deserialize(std::istream& is, const
   }
 
   const bool is_empty = (flags & EMPTY_FLAG_MASK) != 0;
+  if (prelongs != (is_empty ? PREAMBLE_LONGS_EMPTY : PREAMBLE_LONGS_STANDARD)) {
+    throw std::invalid_argument("Possible corruption: preamble longs inconsistent with the empty flag");
+  }
 
   const uint16_t num_hashes = read<uint16_t>(is);
   read<uint16_t>(is); // unused
   const uint64_t seed = read<uint64_t>(is);
   const uint32_t num_longs = read<uint32_t>(is); // sized in java longs
   read<uint32_t>(is); // unused
+  if (!is.good()) throw std::runtime_error("error reading from std::istream");
+  if (num_hashes == 0 || num_longs == 0) {
+    throw std::invalid_argument("Possible corruption: zero hash functions or zero-length bit array");
+  }
 
   // if empty, stop reading
   if (is_empty) {
-    return bloom_filter_alloc<A>(num_longs << 6, num_hashes, seed, allocator);
+    return bloom_filter_alloc<A>(static_cast<uint64_t>(num_longs) << 6, num_hashes, seed, allocator);
   }
 
   const uint64_t num_bits_set = read<uint64_t>(is);
+  if (!is.good()) throw std::runtime_error("error reading from std::istream");
   const bool is_dirty = (num_bits_set == DIRTY_BITS_VALUE);
 
-  // allocate memory
-  const uint64_t num_bytes = num_longs << 3;
+  // the stream length is unknown: read the bit array in bounded chunks so that a corrupted
+  // length cannot force a huge allocation before any data has been seen
+  const uint64_t num_bytes = static_cast<uint64_t>(num_longs) << 3;
+  std::vector<uint8_t, AllocUint8> tmp{AllocUint8(allocator)};
+  const uint64_t chunk = 1 << 20;
+  for (uint64_t done = 0; done < num_bytes; ) {
+    const uint64_t n = std::min(chunk, num_bytes - done);
+    tmp.resize(done + n);
+    read(is, tmp.data() + done, n);
+    if (!is.good()) throw std::runtime_error("error reading from std::istream");
+    done += n;
+  }
   AllocUint8 alloc(allocator);
   uint8_t* bit_array = alloc.allocate(num_bytes);
   if (bit_array == nullptr) {
     throw std::bad_alloc();
   }
-  read(is, bit_array, num_bytes);
+  std::copy(tmp.begin(), tmp.end(), bit_array);
 
   // pass to constructor
-  return bloom_filter_alloc<A>(seed, num_hashes, is_dirty, true, false, num_longs << 6, num_bits_set, bit_array, nullptr, allocator);
+  return bloom_filter_alloc<A>(seed, num_hashes, is_dirty, true, false, static_cast<uint64_t>(num_longs) << 6, num_bits_set, bit_array, nullptr, allocator);
 }
 
 template<typename A>
@@ -354,6 +372,9 @@ bloom_filter_alloc<A> bloom_filter_alloc<A>::internal_deserialize_or_wrap(void* 
   }
 
   const bool is_empty = (flags & EMPTY_FLAG_MASK) != 0;
+  if (prelongs != (is_empty ? PREAMBLE_LONGS_EMPTY : PREAMBLE_LONGS_STANDARD)) {
+    throw std::invalid_argument("Possible corruption: preamble longs inconsistent with the empty flag");
+  }
 
   ensure_minimum_memory(length_bytes, prelongs * sizeof(uint64_t));
 
@@ -366,17 +387,24 @@ bloom_filter_alloc<A> bloom_filter_alloc<A>::internal_deserialize_or_wrap(void* 
   uint32_t num_longs;
   ptr += copy_from_mem(ptr, num_longs); // sized in java longs
   ptr += sizeof(uint32_t); // unused 32 bits follow
+  if (num_hashes == 0 || num_longs == 0) {
+    throw std::invalid_argument("Possible corruption: zero hash functions or zero-length bit array");
+  }
 
   // if empty, stop reading
   if (wrap && is_empty && !read_only) {
     throw std::invalid_argument("Cannot wrap an empty filter for writing");
   } else if (is_empty) {
-    return bloom_filter_alloc<A>(num_longs << 6, num_hashes, seed, allocator);
+    return bloom_filter_alloc<A>(static_cast<uint64_t>(num_longs) << 6, num_hashes, seed, allocator);
   }
 
   uint64_t num_bits_set;
   ptr += copy_from_mem(ptr, num_bits_set);
   const bool is_dirty = (num_bits_set == DIRTY_BITS_VALUE);
+
+  // the bit array must be inside the caller's buffer whether it is copied or wrapped
+  const uint64_t num_bytes = static_cast<uint64_t>(num_longs) << 3;
+  ensure_minimum_memory(end_ptr - ptr, num_bytes);
 
   uint8_t* bit_array;
   uint8_t* memory;
@@ -386,8 +414,6 @@ bloom_filter_alloc<A> bloom_filter_alloc<A>::internal_deserialize_or_wrap(void* 
   } else {
     // allocate memory
     memory = nullptr;
-    const uint64_t num_bytes = num_longs << 3;
-    ensure_minimum_memory(end_ptr - ptr, num_bytes);
     AllocUint8 alloc(allocator);
     bit_array = alloc.allocate(num_bytes);
     if (bit_array == nullptr) {
@@ -397,7 +423,7 @@ bloom_filter_alloc<A> bloom_filter_alloc<A>::internal_deserialize_or_wrap(void* 
   }
 
   // pass to constructor -- !wrap == is_owned_
-  return bloom_filter_alloc<A>(seed, num_hashes, is_dirty, !wrap, read_only, num_longs << 6, num_bits_set, bit_array, memory, allocator);
+  return bloom_filter_alloc<A>(seed, num_hashes, is_dirty, !wrap, read_only, static_cast<uint64_t>(num_longs) << 6, num_bits_set, bit_array, memory, allocator);
 }
 
 template<typename A>
